@@ -309,6 +309,8 @@ def leg_wrappers(run, quick):
     def cls_for(t):
         if t not in classes:
             attrs = {}
+            if t == 'W3':
+                attrs['unique'] = False        # a non-unique middleware type carrying a wsgi_wrapper
             if t.startswith('W'):
                 def wrapper(self, wsgi_app, t=t):
                     def wrapped(environ, start_response):
